@@ -32,8 +32,9 @@ def build(repo, tier="quick"):
         from contracts import core as cc
         base = cq + hinted + sdq + [cc.solution_init()]
         if dual:
-            # super().__init__ of the dual variant is the plain container's constructor
-            base = base + [c for c in csd.sd_contracts(False) if c.name == "__init__"]
+            # calls through super() resolve to the plain container's methods: their (separately verified) contracts
+            plain = csd.sd_contracts(False) + csd.sd_queue_contracts(False)
+            base = base + [c for c in plain if c.name != "InsertDataItem" or getattr(c, "tag", "") == "hint"]
         loops = {(F, cls + ".FindDataItemByOneDimensionalPoint", 0): csd.find_loop(),
                  (F, cls + ".RefillQueue", 0): csd.refill_loop(dual),
                  (F, "SearchData.FindDataItemByOneDimensionalPoint", 0): csd.find_loop()}
